@@ -11,7 +11,7 @@ def run_stream(ev_bin, args, limit_samples=3):
     p = subprocess.run([ev_bin, *args], stdout=subprocess.PIPE, text=True)
     if p.returncode != 0:
         raise RuntimeError("ergoverif %s failed" % (args,))
-    cases = [json.loads(l) for l in p.stdout.splitlines()]
+    cases = [json.loads(l) for l in p.stdout.split("\n") if l]
     outs = common.model_batch([c["req"] for c in cases])
     diffs, classes, samples = [], {}, []
     for c, o in zip(cases, outs):
